@@ -20,7 +20,7 @@ CHECKS = {
  "C12": ("MC_Derive", "every injective map (<=1 pair quick, <=2 thorough) for remap_uri_prefixes and rewire on one- and two-record converters; an Apalache check of the declarative statement over UNBOUNDED strings; rewire applied twice for idempotence"),
  "C13": ("MC_Build", "every small prefix map / priority map / reverse map / JSON-LD context / non-bijective map for upgrade_prefix_map, all dictionary orders; loading via object, str path and Path"),
  "C14": ("MC_IO + MC_System", "C14 along histories (spec/System.tla: files as state, write and read as separate steps, the file a snapshot of the source; P_C14_sys / P_Snapshot checked by TLC, behaviours with real files -- converters built incrementally, merged, chained, remapped, then written, changed and read back; twin converters written one after the other -- validated event by event); every strict converter of <=2 records over hazard classes {plain, backslash, non-ASCII, space} with synonym and pattern, every format x flags, at the level of what the file denotes; the real writers/readers are run over hazard alphabets per format (EPM: arbitrary Unicode incl. control characters and quotes; JSON-LD; SHACL/TSV: printable without quote/angle brackets) and the read-back converter is compared with the predicted one"),
- "C16": ("MC_Bulk", "the file helper as a step machine (read+convert all rows, then write): every table <=2 (thorough 3) rows x cell pool x header x column x strict/passthrough/ambiguous, fault at each row position (reachability checked); recorded executions (one event per cell conversion with the file's bytes compared at that moment) must be behaviours of the machine; data-frame variants element-wise"),
+ "C16": ("MC_Bulk", "a TLAPS proof (tables of any length) of atomicity, result and fault position for the step machine that Bulk.tla instantiates; the file helper as a step machine (read+convert all rows, then write): every table <=2 (thorough 3) rows x cell pool x header x column x strict/passthrough/ambiguous, fault at each row position (reachability checked); recorded executions (one event per cell conversion with the file's bytes compared at that moment) must be behaviours of the machine; data-frame variants element-wise"),
  "C15": ("MC_Refs", "every heap of <=2 (thorough 3) references built through every constructor over prefixes {'', a, A}, identifiers with and without separators, names, 1- and 2-character separators, with/without a context converter: parse-print inverse, split-at-first, equivalence/hash/order laws; replayed on the four classes incl. JSON, immutability, triples files (plain and gzip)"),
  "C17": ("MC_Web", "every request path <=7 (thorough 9) characters over {x, y, ':', '/'} against colon- and slash-delimited converters: framework routing (greedy prefix) + re-split at the first delimiter = expand_pair; each request is sent to the Flask and the FastAPI app in-process"),
  "C18": ("MC_Web", "every Accept header of <=3 (thorough 4) parts over supported/synonym/unsupported types x 3 q-values (16 optional-whitespace renderings when replayed); every URI <=5 characters against a converter with an IRI-invalid synonym; SPARQL answers for both directions, both VALUES placements, graph.query with/without the custom processor, Flask GET/POST"),
